@@ -28,7 +28,7 @@ THEOREMS = ['C01_flag_den', 'C01_expand_surfs_den', 'C01_expand_surfs_errors',
             'C01_remove_empty_sound', 'C01_prune_sound', 'C01_partition',
             'C01_partition_points', 'C01_print_read', 'C01_partition_file',
             'C01_partition_file_points', 'C01_partition_file_points_linked',
-            'C01_cells_linked', 'C01_partition_linked']
+            'C01_cells_linked', 'C01_partition_linked', 'C01_partition_fill_linked']
 TRUSTED = [
     'hand-written model coq/C01/Model.v (modelled, tied by execution only)',
     'surfaces are abstract ids: what a T4 surface id means geometrically, and '
